@@ -570,6 +570,8 @@ func loadYamlFile(ctx context.Context, file types.ConfigFile, opts *Options, wor
 	}
 
 	var processor PostProcessor
+	// the paths tagged !reset / !override in any document of the file
+	tagged := &ResetProcessor{}
 	if file.Config == nil {
 		r := bytes.NewReader(file.Content)
 		decoder := yaml.NewDecoder(r)
@@ -583,8 +585,9 @@ func loadYamlFile(ctx context.Context, file types.ConfigFile, opts *Options, wor
 			if err != nil {
 				return nil, nil, err
 			}
-			processor = reset
-			if err := processRawYaml(raw, processor); err != nil {
+			tagged.paths = append(tagged.paths, reset.paths...)
+			processor = tagged
+			if err := processRawYaml(raw, reset); err != nil {
 				return nil, nil, err
 			}
 			verifPhase(opts, "}doc")
